@@ -100,6 +100,8 @@ inductive Op
   | size_hint (it : String) | len (it : String) | as_slice (it : String)
   | clone_iter (it itnew : String)
   | serialize (r : String)
+  | clone_from (r rsrc : String)
+  | from_str (n : Nat)
   | deserialize (rnew : String) (hint : Option Nat) (sc : List SeqItem)
   | deserialize_in_place (r : String) (hint : Option Nat) (sc : List SeqItem)
   deriving Repr, Inhabited
@@ -113,6 +115,7 @@ inductive Out
   | elems (es : List Elem)
   | errName (s : String)
   | err
+  | fromStr (n : Nat)
   | cmp (eq : Bool) (pc : Option Ordering) (c : Ordering) (heq : Bool)
   | stopped (p : Panic)
   | badOp
@@ -409,6 +412,38 @@ def step (w : World) : Op → World × Out
         | .ok es => (w', .elems es)
         | .error p => (w', .stopped p))
      | _ => (w, .badOp))
+  | .clone_from r rsrc =>
+    if r == rsrc then (w, .badOp) else
+    (match w.get r, w.get rsrc with
+     | some (.vec v), some (.vec src) =>
+       -- default `Clone::clone_from`: `*self = source.clone()` — clone first, then the old value is dropped
+       let (res, s) := (do
+          let (c, _) ← VM.onVec src (clone X)
+          dropVec X
+          VM.setV c) { sys := w.sys, v := v }
+       let w' := { w with sys := s.sys }
+       (match res with
+        | .ok _ => (w'.set r (.vec s.v), .ok)
+        | .error p => (w'.set r (.vec s.v), .stopped p))
+     | _, _ => (w, .badOp))
+  | .from_str n =>
+    if n > 1048576 then (w, .badOp) else
+    -- `MiniVec::<u8>::from(&str)`: with_capacity(len); nothing else for the empty string; otherwise the
+    -- bytes are copied and the length set; the temporary is dropped inside the operation
+    let Xb : Ctx := { X with c := ⟨1, 1, false⟩ }
+    let (res, _, w') := runOn w {} (do
+      VM.lift Xb (Gen.with_capacity Xb.env n)
+      if n > 0 then do
+        let p ← VM.lift Xb (Gen.as_mut_ptr Xb.env)
+        VM.forN n (fun i => VM.wr p i ⟨0, 97⟩)
+        VM.lift Xb (Gen.set_len Xb.env n)
+      else pure ()
+      let l ← VM.lift Xb (Gen.len Xb.env)
+      dropVec Xb
+      pure l)
+    (match res with
+     | .ok l => (w', .fromStr l)
+     | .error p => (w', .stopped p))
   | .serialize r => w.onVecReg r (do let es ← contents X; pure (.elems es))
   | .deserialize rnew hint sc =>
     if !w.fresh rnew then (w, .badOp) else
